@@ -55,6 +55,7 @@ type vtCase struct {
 	Shape   string   `json:"shape"`   // graph cases: "" tools -> END | "branch" non-stream branch condition + invokable successor |
 	// "fanout" two invokable successors | "callback" a callback handler on the tools node + an invokable successor: in the stream
 	// form the node's output is then concatenated by two consumers that share the frames
+	MFail   bool     `json:"mfail"`   // wrap cases: a failing invokable tool fails in its custom output encoder (WithMarshalOutput)
 	EOFWrap bool     `json:"eofwrap"` // the error a stream fails with in the middle has io.EOF in its chain
 	Deep    bool     `json:"deep"`    // panicking tools panic from a deep recursion (long unwinding widens the window after the panic)
 	JSONArg bool     `json:"jsonargs"` // arguments are JSON objects {"v":..,"o":..} ("o" omitted in some calls); with wrap, the tools are built
@@ -209,6 +210,10 @@ func (r *vtRun) invokable(name, args, beh string, handler bool) (string, error) 
 		r.emit("tend", "name", name, "args", args, "h", handler, "res", "err", "out", "")
 		inv.acked()
 		return "", &vtErr{name, args}
+	case "failm": // the tool fails in the output encoder it was built with (components/tool/utils WithMarshalOutput)
+		r.emit("tend", "name", name, "args", args, "h", handler, "res", "err", "out", "")
+		inv.acked()
+		return "\x00vfmfail|" + name + "|" + args, nil
 	case "panic":
 		r.emit("tend", "name", name, "args", args, "h", handler, "res", "panic", "out", "")
 		inv.acked()
@@ -417,6 +422,12 @@ func (r *vtRun) logError(err error, where string) {
 		seen[te.Name+"|"+te.Args] = true
 		errs = append(errs, map[string]any{"name": te.Name, "args": te.Args})
 	}
+	var tee *vtEOFErr
+	if te == nil && errors.As(err, &tee) { // the other error type of the harness's tools: the cause is recoverable all the same
+		te = &vtErr{tee.Name, tee.Args}
+		seen[te.Name+"|"+te.Args] = true
+		errs = append(errs, map[string]any{"name": te.Name, "args": te.Args})
+	}
 	text := err.Error()
 	for _, m := range vtErrRe.FindAllStringSubmatch(text, -1) {
 		if !seen[m[1]+"|"+m[2]] {
@@ -555,7 +566,7 @@ func vtRunCaseBody(r *vtRun) []string {
 	if sched == nil {
 		sched = []int{}
 	}
-	r.emit("case", "id", c.ID, "mode", c.Mode, "graph", c.Graph, "handler", c.Handler, "calls", calls, "tools", tools, "sched", sched, "wrap", c.Wrap, "optlist", c.OptList, "deep", c.Deep, "jsonargs", c.JSONArg, "shape", c.Shape, "eofwrap", c.EOFWrap)
+	r.emit("case", "id", c.ID, "mode", c.Mode, "graph", c.Graph, "handler", c.Handler, "calls", calls, "tools", tools, "sched", sched, "wrap", c.Wrap, "optlist", c.OptList, "deep", c.Deep, "jsonargs", c.JSONArg, "shape", c.Shape, "eofwrap", c.EOFWrap, "mfail", c.MFail)
 
 	ctx := context.Background()
 	bts := make([]tool.BaseTool, 0, len(c.Tools))
@@ -563,18 +574,30 @@ func vtRunCaseBody(r *vtRun) []string {
 		b := vtBase{r: r, t: t}
 		t := t
 		um := toolutils.WithUnmarshalArguments(func(_ context.Context, a string) (interface{}, error) { return a, nil })
-		ms := toolutils.WithMarshalOutput(func(_ context.Context, o interface{}) (string, error) { return o.(string), nil })
+		// custom output encoder of the utils-built tools; in mfail cases a failing invokable tool fails HERE (its body succeeds)
+		ms := toolutils.WithMarshalOutput(func(_ context.Context, o interface{}) (string, error) {
+			out := o.(string)
+			if strings.HasPrefix(out, "\x00vfmfail|") {
+				p := strings.SplitN(out, "|", 3)
+				return "", &vtErr{p[1], p[2]}
+			}
+			return out, nil
+		})
+		ibeh := t.Beh
+		if c.MFail && t.Beh == "fail" {
+			ibeh = "failm"
+		}
 		info := &schema.ToolInfo{Name: t.Name, Desc: "verif tool"}
 		// in the Invoke form a tool with both forms is used through its invokable form only
 		invForm := t.Kind == "inv" || (t.Kind == "both" && c.Mode == "invoke")
 		switch {
 		case invForm && c.Wrap && c.JSONArg && t.Name == "tb":
 			bts = append(bts, toolutils.NewTool(info, func(_ context.Context, a map[string]string) (string, error) {
-				return r.invokable(t.Name, vtCanon(a["v"], a["o"]), t.Beh, false)
+				return r.invokable(t.Name, vtCanon(a["v"], a["o"]), ibeh, false)
 			}, ms))
 		case invForm && c.Wrap && c.JSONArg:
 			bts = append(bts, toolutils.NewTool(info, func(_ context.Context, a *vtIn) (string, error) {
-				return r.invokable(t.Name, vtCanon(a.V, a.O), t.Beh, false)
+				return r.invokable(t.Name, vtCanon(a.V, a.O), ibeh, false)
 			}, ms))
 		case t.Kind == "str" && c.Wrap && c.JSONArg:
 			bts = append(bts, toolutils.NewStreamTool(info, func(ctx context.Context, a *vtIn) (*schema.StreamReader[string], error) {
@@ -582,7 +605,7 @@ func vtRunCaseBody(r *vtRun) []string {
 			}, ms))
 		case t.Kind == "inv" && c.Wrap:
 			bts = append(bts, toolutils.NewTool(info, func(_ context.Context, a string) (string, error) {
-				return r.invokable(t.Name, a, t.Beh, false)
+				return r.invokable(t.Name, a, ibeh, false)
 			}, um, ms))
 		case t.Kind == "str" && c.Wrap:
 			bts = append(bts, toolutils.NewStreamTool(info, func(ctx context.Context, a string) (*schema.StreamReader[string], error) {
